@@ -15,6 +15,9 @@ CROSS = [
     ('cross-loop', loop_program(4)),
     ('cross-two-loops', loop_program(4) + ' ' + loop_program(5).replace('💕', '💖') + ' 항.'),
     ('cross-heart', '형...♥ 흣. 형♡ 형.... 항...?♥ 형.... 항...?♥ %s 항.' % P65),
+    # a return (♡) entered on a later line than the jump it returns to: the loop runs once more, the return is taken once
+    ('cross-return-later', '형.... 형.... 형. 형.... 형. 항...♥ %s 항. 항...♥? %s 항. 항...♡?' % (push(48), push(49))),
+    ('cross-return-later-label-first', '항...♥ 형.... 형.... 형. 형.... 형. 항...💕 %s 항. 항...💕? %s 항. 항...♡?' % (push(48), push(49))),
     ('cross-exit', '%s 항. 형 흣....💕 형. 하앙... 흣. 흑... 흣....!💕 %s 흑. 항 %s 항.' % (P65, P66, P67)),
 ]
 
@@ -311,7 +314,7 @@ def scale_sessions(tier):
     from . import scale
     q = tier == 'quick'
     progs = [scale.deep_program(1, 65, 65), scale.deep_program(3, 257, 258), scale.many_labels(65, 7),
-             scale.many_labels(257, 5, same_heart=True), scale.straight(520), scale.loop_program(150) + ' 항.']
+             scale.many_labels(257, 5, same_heart=True), scale.straight(520), scale.loop_program(180) + ' 항.']
     if not q:
         progs += [t for t in scale.scale_programs('quick')[::5]]
     out = []
@@ -323,6 +326,33 @@ def scale_sessions(tier):
         h = len(cmds) // 2
         out.append(cmds[:h] + ['clear'] + cmds)                  # a long session abandoned, then the whole again
     return out
+
+
+def padded_sessions(tier):
+    """short programs with jumps and returns, one command per line, with a block of n neutral lines (empty, text
+    without a command, or a command that puts back what it takes) at every position: the number of lines a session has seen is taken across the size ladder"""
+    from . import refinterp as I
+    from .eng_optdiff import labelflow_family
+    q = tier == 'quick'
+    progs = [t for _, t in CROSS] + [LATE_RETURN[1]]
+    lf = []
+    for t in labelflow_family():
+        pr = P.parse(t)
+        if len(pr) > 10:
+            continue
+        end, m, steps = I.run(pr, 'ab\nc', max_steps=300, horizon=256)
+        if end == 'end' and m.reads == 0 and m.returns > 0 and m.back_jumps + m.fwd_jumps > 0:     # C12 is about input-free programs
+            lf.append(t)
+    progs += lf[:: max(1, len(lf) // (40 if q else 200))]
+    sizes = (16, 17, 64, 65, 256, 257) if q else (7, 8, 9, 15, 16, 17, 31, 32, 33, 63, 64, 65, 127, 128, 129, 255, 256, 257, 1024, 1025)
+    out = []
+    for t in progs:
+        cmds = split_commands(t)
+        for p in range(len(cmds) + 1):
+            for n in sizes:
+                for neutral in ('', 'abc 가나다 .', '항...'):      # the last one executes: pops and pushes back on stack 3
+                    out.append(cmds[:p] + [neutral] * n + cmds[p:])
+    return out, len(progs)
 
 
 def run_c12(tier):
@@ -353,6 +383,10 @@ def run_c12(tier):
     info['size-ladder'] = {'sessions': len(sc), 'longest_session_lines': max(len(x) for x in sc)}
     for i in range(0, len(sc), 2):
         tasks.append(('sessions', 'scale', sc[i:i + 2]))
+    pad, npad = padded_sessions(tier)
+    info['neutral-line-padding'] = {'programs': npad, 'sessions': len(pad)}
+    for i in range(0, len(pad), 40):
+        tasks.append(('sessions', 'padded', pad[i:i + 40]))
     n = 3 if tier == 'quick' else 4
     alpha = A20
     for L in range(0, n + 1):
